@@ -437,6 +437,25 @@ pub fn check_c02(scn: &LoopScn, r: &RunResult, out: &LoopOut) -> Vec<Violation> 
             }
         }
     }
+    // Allocator requests made by the code under test itself between a
+    // sample's two timestamps (reported by the end read, `dsim::window`).
+    let skip_to = r
+        .events
+        .iter()
+        .rposition(|e| matches!(e.kind, Ev::User(UserEv::Mark { tag: crate::looprun::PRELUDE_END, .. })))
+        .map_or(0, |p| p + 1);
+    for e in &r.events[skip_to..] {
+        if let Ev::User(UserEv::Mark { tag: dsim::window::FOREIGN_ALLOC_TAG, a, b }) = e.kind {
+            vs.push(v(
+                "allocator_work_in_timed_section",
+                format!(
+                    "thread {}: {a} allocator request(s) (the first of {b} bytes) were made between the start and the end timestamp outside the benchmarked calls (end read at seq {})",
+                    e.tid, e.seq
+                ),
+            ));
+            break;
+        }
+    }
     vs.dedup();
     vs
 }
